@@ -596,6 +596,18 @@ impl Spec {
         if buf.len() < lay.base {
             buf.resize(lay.base, 0);
         }
+        if lay.name == "MSO" {
+            // TextStart in the assignment is a character index into Msg; on the wire it is the byte
+            // offset of that character within the encoded message
+            if let (Some(Val::T(msg)), Some(Val::U(ts))) = (fm.get("Msg"), fm.get("TextStart")) {
+                let prefix: String = msg.chars().take(*ts as usize).collect();
+                let off = tenc(&prefix, false).len();
+                if off > 255 {
+                    problems.push("MSO TextStart does not fit a byte".into());
+                }
+                buf[7] = off as u8;
+            }
+        }
         let n = buf.len();
         if n % 4 != 0 {
             problems.push(format!("reference size {n} is not a multiple of 4"));
